@@ -874,7 +874,9 @@ def rule_R11(res, prog):
     MEMW = ("memcpy", "__builtin_memcpy", "__builtin___memcpy_chk", "memmove", "__builtin___memmove_chk")
 
     def on_table(e):
-        return any(m.get("k") == "var" and m.get("n") == "g_sessionTable" for m in walk(e))
+        if not isinstance(e, dict):
+            return False            # e.g. the element list of an initialiser `{ 0 }`
+        return any(isinstance(m, dict) and m.get("k") == "var" and m.get("n") == "g_sessionTable" for m in walk(e))
     owner_fns = set()
     n_a = n_b = 0
     for fn in sorted(prog.functions.values(), key=lambda f: f.qname):
